@@ -45,6 +45,8 @@ def attach(prop, cases_fn, oracle_fn, n_quick, n_thorough, extra_targets=()):
 
     prop.cases, prop.oracle, prop.nontrivial = cases, oracle, nontrivial
     prop.model_script, prop.canon, prop.finding_signature = model_script, canon, sig
+    # second model pass (composed model, engine `ofull`): the helper skips the db-engine scripts itself
+    prop.extra_model_script, prop.extra_canon, prop.extra_what = helper.extra_model_script, helper.extra_canon, helper.extra_what
     prop.proof_targets = list(prop.proof_targets) + list(extra_targets)
     prop.modelled += "; session level: Outstation/Session.v (see C04)"
     prop.rule += ("; session level (engine outstation): event histories with polls, unsolicited series, right/wrong/late "
